@@ -38,10 +38,11 @@ Fd(nm, tp, df, hp, al, as, sp, mn) ==
     argstr |-> IF Shell THEN as ELSE "", position |-> 0, sep |-> IF Shell THEN sp ELSE " ", menu |-> mn ]
 
 Template(t) ==
-  CASE t = "a" -> { Fd("a", "bool", "False", hp, {}, as, " ", {"-", "T"}) :
-                      hp \in {"", "the a flag"}, as \in (IF Shell THEN {"-a", "--aa"} ELSE {""}) }
-    [] t = "b" -> { Fd("b", "str | None", "None", hp, al, "-b", " ", {"-", "v", "x"}) :
-                      hp \in {"", "pick b"}, al \in {{}, {"v", "w"}} }
+  CASE t = "a" -> { Fd("a", "bool", "False", v[1], {}, v[2], " ", {"-", "T"}) :
+                      v \in (IF Shell THEN { <<"", "-a">>, <<"the a flag", "--aa">> }
+                                       ELSE { <<"", "">>, <<"the a flag", "">> }) }
+    [] t = "b" -> { Fd("b", "str | None", "None", v[1], v[2], "-b", " ", {"-", "v", "x"}) :
+                      v \in { <<"", {}>>, <<"pick b", {"v", "w"}>> } }
     [] t = "n" -> { Fd("n", "int", "3", "", {}, "-n", " ", {"-", "2"}) }
     [] t = "l" -> { Fd("l", "list[int] | None", "None", "", {}, "-l", sp, {"-", "12"}) :
                       sp \in (IF Shell THEN {" ", ","} ELSE {" "}) }
